@@ -18,7 +18,8 @@ func init() {
 			"additional family from the owning pool (GAIN); Allocate/AllocateFromPool return an existing allocation unchanged without searching " +
 			"(KEEP-EXISTING); SetPools drops an allocation only when no pool contains it and re-homes it (Unassign + assign of the same " +
 			"allocation under the new pool name) otherwise (REHOME); Unassign is called only by its five owners, with the handler's own key " +
-			"(UNASSIGN-OWN-KEY); UpdateStatus is reachable only when the converged copy differs from the observed Service (WRITE-ON-CHANGE).",
+			"(UNASSIGN-OWN-KEY); UpdateStatus is reachable only when the converged copy differs from the observed Service (WRITE-ON-CHANGE); " +
+			"the restart gate, the assigned-first order of the full pass and the untouched allocator memory after a failed status write (GATE, GATE-WRITE, ORDER, HANDLER-ERR, shared with C06).",
 		NotDecided: "The frame condition over whole histories (that no sequence of events makes an admissible address inadmissible in the allocator's view) and " +
 			"the correctness of the admissibility tests as values.",
 		Run: runC03,
@@ -85,6 +86,12 @@ func runC03(p *chk.Prog, r *chk.Report) {
 	c03Rehome(p, r)
 	c03Unassign(p, r)
 	c03Write(p, r)
+	// restart and failed-write stability (rules shared with C06): the recorded
+	// addresses are re-adopted, assigned services first, before any per-service
+	// event is handled, and a failed status write leaves the allocator's memory alone
+	c06Gate(p, r)
+	c06Order(p, r)
+	c06Handler(p, r)
 }
 
 func c03Converge(p *chk.Prog, r *chk.Report) {
@@ -323,6 +330,12 @@ func c03Unassign(p *chk.Prog, r *chk.Report) {
 		good := ok
 		if ok && par != "" && len(cs.Call.Args) == 1 {
 			good = isParam(cs.Fn, par)(cs.Call.Args[0])
+		}
+		if good && cs.Fn.Name() == "(*controller.controller).SetBalancer" {
+			// the handler itself releases only a deleted service
+			g := cs.Fn.Graph()
+			sites := g.Find(func(n ast.Node) bool { return n == ast.Node(cs.Call) })
+			good = len(sites) == 1 && g.Dominated(sites[0], g.GPat(true, "RO == nil", chk.H("RO", isParam(cs.Fn, "svcRo"))))
 		}
 		x.Check("Unassign@"+cs.Fn.Name(), cs.Call.Pos(), good, "", "Allocator.Unassign is called from "+cs.Fn.Name()+" (not an owner, or not with the handler's own key)")
 	}
